@@ -339,6 +339,23 @@ static void long_lines(void) {
     printf("S long-lines %ld %ld\n", evals - e0, 0L);
 }
 
+/* strings with very many lines or very many occurrences of one significant character (counters of any width must not wrap):
+ * statistics and delimiter rules only, no read-back */
+static void many_lines(void) {
+    static const int counts[] = { 127, 128, 255, 256, 257, 32767, 32768, 65535, 65536, 65537, 131072 };
+    static const UChar fill[] = { '\n', '\'', '"', ';', ' ', 'a' };
+    static UChar big[131072 + 8]; size_t i, f; long e0 = evals; int job = 0;
+    for (i = 0; i < sizeof counts / sizeof counts[0]; i++) for (f = 0; f < sizeof fill / sizeof fill[0]; f++, job++) {
+        int n = counts[i], k, len = 0;
+        if (job % NW != WK) continue;
+        big[len++] = 'a'; big[len++] = 'b';
+        for (k = 0; k < n; k++) big[len++] = fill[f];
+        big[len++] = 'c'; big[len++] = 'd'; big[len] = 0;
+        check_string(big, 0);
+    }
+    printf("S many-lines %ld %ld\n", evals - e0, 0L);
+}
+
 int main(int argc, char **argv) {
     const char *tier = argc > 1 ? argv[1] : "quick";
     /* non-ASCII code units: U+00E9, units whose low 7 bits alias LF, SP, ', ", [, {, ;  and a surrogate pair */
@@ -353,6 +370,7 @@ int main(int argc, char **argv) {
     all_strings(nonascii, 13, THOROUGH ? 4 : 3, 1, "non-ascii-strings");
     reserved_words();
     long_lines();
+    many_lines();
     printf("P %ld\n", parses);
     printf("D %ld\n", nviol);
     cif_destroy(HOST);
